@@ -240,14 +240,14 @@ func aliasMutant(s *chain.Sim) (mutant, bool) {
 		return mutant{}, false
 	}
 	var sf *types.SiafundElement
-	for _, e := range s.St.SF {
+	for _, e := range s.St.SortedSF() {
 		e := e
 		if r := s.RecipeFor(e.SiafundOutput.Address); r != nil && r.V1Spendable() && s.Spendable(e.SiafundOutput.Address, false) && (sf == nil || string(e.ID[:]) < string(sf.ID[:])) {
 			sf = &e
 		}
 	}
 	var sc *types.SiacoinElement
-	for _, e := range s.St.SC {
+	for _, e := range s.St.SortedSC() {
 		e := e
 		if r := s.RecipeFor(e.SiacoinOutput.Address); r != nil && r.V1Spendable() && s.Spendable(e.SiacoinOutput.Address, false) && e.MaturityHeight <= s.ChildHeight() && !e.SiacoinOutput.Value.IsZero() && (sc == nil || string(e.ID[:]) < string(sc.ID[:])) {
 			sc = &e
